@@ -749,6 +749,10 @@ func (req *Request) mergeDistributedResponse(collectedDatasets chan ResultSet, c
 	isStatsRequest := len(req.Stats) != 0
 	req.StatsResult = NewResultSetStats()
 	for currentRows := range collectedDatasets {
+		currentFailedHash := <-collectedFailedHashes
+		for id, val := range currentFailedHash {
+			res.failed[id] = val
+		}
 		if isStatsRequest {
 			// Stats request
 			// Value (sum), count (number of elements)
@@ -781,10 +785,6 @@ func (req *Request) mergeDistributedResponse(collectedDatasets chan ResultSet, c
 			// the sub results are cut to limit + offset rows, add up the number of matches of all nodes
 			res.result = append(res.result, currentRows...)
 			res.resultTotal += <-collectedTotals
-			currentFailedHash := <-collectedFailedHashes
-			for id, val := range currentFailedHash {
-				res.failed[id] = val
-			}
 		}
 	}
 
